@@ -174,15 +174,17 @@ def entraitAttrOf (depMode : DepMode) : List Attr :=
 def mockallAttrOf (opts : Opts) : List Attr :=
   if opts.mockallValue then [exportGated opts.exportValue mockallPath] else []
 
-/-- the sub-attributes entrait re-applies to what it generates -/
-def reappliedSubs (subAttrs : List Attr) : List Attr :=
-  subAttrs.filter (fun a => a.subKind == .asyncTrait || a.subKind == .automock)
+/-- the sub-attributes entrait re-applies to what it generates: for an entraited trait all of its
+    attributes stay on it; from a function or module only `async_trait` / `automock` are copied -/
+def reappliedSubs (mode : InputMode) (subAttrs : List Attr) : List Attr :=
+  if mode == .rawTrait then subAttrs
+  else subAttrs.filter (fun a => a.subKind == .asyncTrait || a.subKind == .automock)
 
 /-- `TraitCodegen::gen_trait_def` -/
 def genTraitDef (opts : Opts) (ind : TraitIndirection) (depMode : DepMode) (subAttrs : List Attr)
     (vis : Toks) (ident : String) (tg : TraitGenerics) (sup : Supertraits)
     (fns : List TraitFn) (mode : InputMode) : GenTrait :=
-  { attrs := unimockAttrOf opts ind mode fns ++ entraitAttrOf depMode ++ mockallAttrOf opts ++ reappliedSubs subAttrs
+  { attrs := unimockAttrOf opts ind mode fns ++ entraitAttrOf depMode ++ mockallAttrOf opts ++ reappliedSubs mode subAttrs
     vis := traitVisibility mode vis
     ident := ident
     params := tg.params
